@@ -13,6 +13,7 @@ claimed={
  "C13":("other","structural necessary conditions: value of every receiver field at exit of Add/Combine equals the online/pairwise-merge formula in three regimes; derived statistics; Combine never writes its argument","field-at-exit formula conformance via reaching stores and gating functions"),
  "C05":("other","structural necessary conditions: NormalDist PDF/CDF/moments/Bounds/Rand formulas, InvCDF decision list + Acklam polynomials + Halley step, pdfEach/cdfEach sibling agreement incl. the fast path, DeltaDist, dispatch signatures; not accuracy/monotonicity","formula conformance and sibling agreement (engine B), signature rule"),
  "C06":("other","structural necessary conditions: support decision lists, PMF/CDF/moment formulas, tail-flip identity, term-ratio recurrence, floor semantics of k; not 1e-10 accuracy","formula conformance (engine B) + D-floor"),
+ "C07":("other","structural necessary conditions: dispatch to the distribution's own method on the ok edge of the type assertion, decision list of the generic quantile closure, predicate/bracket/result-1 plumbing of the bisection, bisectBool recurrences and termination tests, Rand's re-draw loop and source; not bracket-expansion completeness or accuracy","control-shape (C-dispatch, reach conditions) + recurrence conformance"),
  "C08":("other","structural necessary conditions: the formulas and recurrences of BetaInc/betacf, GammaInc/GammaIncComp (sibling agreement, sum to 1 symbolically), Choose/Lchoose, Sign equal the cited ones; bounded loops; not accuracy/convergence","formula and recurrence conformance (engine B), sibling agreement"),
  "C16":("other","structural necessary conditions: Map/Unmap formulas for Linear, Log (both signs), QQ; derived symbolically Map(Min)=0, Map(Max)=1, Unmap∘Map=id, Map∘Unmap=id; NewLog decision list and error type; not floating-point monotonicity","formula conformance + symbolic composition/substitution on normal forms"),
  "C14":("other","structural necessary conditions: exactly-one-increment, guard/counter agreement by reach conditions, floor semantics of the bin index, BinToValue∘bin = id symbolically, quantile interpolation formulas","control-shape rules + D-floor + formula conformance"),
